@@ -495,13 +495,17 @@ fn build_stream(r: &mut Rng, chain: &[usize], parms: &[Parms], form: &Form, cont
     if r.chance(1, 4) { entries.push(("Length", Object::Integer(r.range(0, 99)))); }
     r.shuffle(&mut entries);
     for (k, v) in entries { d.set(k, v); }
-    Stream::new(d, content)
+    let mut s = Stream::new(d, content);
+    // Length as it may stand in a loaded file: indirect / not an integer / wrong / absent (decompress must repair it)
+    match r.below(8) { 0 | 1 => { let l = odd_length(r, &[]); s.dict.set("Length", l); } 2 => { s.dict.remove(b"Length"); } _ => {} }
+    s
 }
 
 /// run decode / plain / decompress on the real code, record correspondence, return decoded result
 fn decode_and_corr(c: &mut Ctx, s: &Stream) -> Result<Result<Vec<u8>, lopdf::Error>, (String, String)> {
     let tab = ext_for(s);
     emit_lzw_checks(c, &tab);
+    count_length_kind(c, s, "decompress");
     let ext = tab.text();
     let tok = stream_tok(s);
     let res = guard(|| s.decompressed_content());
@@ -778,6 +782,24 @@ fn gen_extra_dict(r: &mut Rng, d: &mut Dictionary) {
     r.shuffle(&mut e);
     for (k, v) in e { d.set(k, v); }
 }
+/// a Length entry as it stands BEFORE a content-changing operation: a wrong number, an indirect reference (to an
+/// integer object of the document, to another kind of object, dangling), or another non-integer object. Whatever was
+/// there, afterwards the entry must be the direct integer `content.len()` (the property's last sentence).
+fn odd_length(r: &mut Rng, refs: &[(u32, u16)]) -> Object {
+    match r.below(10) {
+        0 | 1 => Object::Integer(r.range(0, 500)),
+        2 | 3 | 4 | 5 => Object::Reference(if !refs.is_empty() && r.chance(3, 4) { *r.pick(refs) } else { (90 + r.below(9) as u32, 0) }),
+        6 => Object::Real(12.0),
+        7 => Object::Null,
+        8 => Object::Name(b"Length".to_vec()),
+        _ => Object::Array(vec![Object::Integer(3)]),
+    }
+}
+fn count_length_kind(c: &mut Ctx, s: &Stream, op: &str) {
+    let k = match s.dict.get(b"Length") { Ok(Object::Integer(n)) if *n == s.content.len() as i64 => "right", Ok(Object::Integer(_)) => "wrong_integer",
+        Ok(Object::Reference(_)) => "reference", Ok(_) => "other_object", Err(_) => "absent" };
+    c.count(&format!("length_before.{}.{}", op, k));
+}
 fn length_ok(s: &Stream) -> bool { matches!(s.dict.get(b"Length"), Ok(Object::Integer(n)) if *n == s.content.len() as i64) }
 
 /// a stream for the compress / set_* experiments. `stale_parms` adds a DecodeParms although there is no Filter.
@@ -801,12 +823,13 @@ fn gen_edit_stream(r: &mut Rng, allow_filter: bool, stale_parms: bool) -> (Strea
     if stale_parms { d.set("DecodeParms", Object::Dictionary(gen_parms(r, true).dict(r))); }
     else if r.chance(1, 8) { d.set("DecodeParms", Object::Dictionary({ let mut p = gen_parms(r, true); if p.png_active() { p.predictor = Some(1); } p.dict(r) })); }
     let mut s = Stream::new(d, plain.clone());
-    if r.chance(1, 6) { s.dict.set("Length", Object::Integer(r.range(0, 500))); }       // a wrong Length before the operation
+    match r.below(6) { 0 | 1 => { let l = odd_length(r, &[]); s.dict.set("Length", l); } 2 => { if r.chance(1, 3) { s.dict.remove(b"Length"); } } _ => {} }   // Length before the operation
     (s, Some(plain))
 }
 
 fn compress_case(c: &mut Ctx, s: &Stream, stream: &str, stale_sig: bool) {
     let before_plain = guard(|| s.get_plain_content());
+    count_length_kind(c, s, "compress");
     let mut tab = ext_for(s);
     tab.add("d", &s.content, zlib_best(&s.content));
     let tok = stream_tok(s);
@@ -878,6 +901,7 @@ fn run_edit(c: &mut Ctx) {
         let (s, _) = gen_edit_stream(&mut r, true, stale);
         let newc = gen_content(&mut r);
         let tok = stream_tok(&s);
+        count_length_kind(c, &s, "set");
         c.nontrivial(&format!("{} {}", tok, hex(&newc)));
         let mut a = s.clone();
         a.set_content(newc.clone());
@@ -919,6 +943,11 @@ fn run_edit(c: &mut Ctx) {
                 }
             };
             doc.objects.insert(id, o);
+        }
+        // Length of some streams: indirect (to an integer object of the document, to another object, dangling) or odd
+        let ids: Vec<(u32, u16)> = doc.objects.keys().cloned().collect();
+        for o in doc.objects.values_mut() {
+            if let Object::Stream(s) = o { if r.chance(1, 3) { let l = odd_length(&mut r, &ids); s.dict.set("Length", l); } count_length_kind(c, s, "doc"); }
         }
         for o in doc.objects.values() {
             if let Object::Stream(s) = o {
@@ -980,6 +1009,55 @@ fn run_stale_parms(c: &mut Ctx) {
 }
 
 // ---------------------------------------------------------------- canonical witnesses
+
+/// every content-changing operation on a stream whose Length is INDIRECT (`/Length 7 0 R`, as most producers write
+/// it), a real, null or absent: afterwards `dict.get(Length) == Integer(content.len())` on the real stream
+fn run_length_forms(c: &mut Ctx) {
+    let forms: Vec<(&str, Option<Object>)> = vec![
+        ("ref_to_integer", Some(Object::Reference((7, 0)))), ("ref_dangling", Some(Object::Reference((99, 0)))),
+        ("ref_to_stream", Some(Object::Reference((8, 0)))), ("real", Some(Object::Real(3.0))), ("null", Some(Object::Null)),
+        ("wrong_integer", Some(Object::Integer(1))), ("absent", None)];
+    for (fi, (fname, form)) in forms.iter().enumerate() {
+        let Some(_) = c.case("length.forms", fi as u64) else { continue };
+        let plain: Vec<u8> = (0..200).map(|i| b"BT /F1 12 Tf (Hello) Tj ET\n"[i % 27]).collect();
+        let with_len = |mut s: Stream| { match form { Some(o) => s.dict.set("Length", o.clone()), None => { s.dict.remove(b"Length"); } } s };
+        let plain_stream = with_len(Stream::new(Dictionary::new(), plain.clone()));
+        let mut fd = Dictionary::new();
+        fd.set("Filter", Object::Name(b"FlateDecode".to_vec()));
+        let flate_stream = with_len(Stream::new(fd, zlib_encode(&plain, 6)));
+        let fail = |c: &mut Ctx, op: &str, s: &Stream| {
+            if !length_ok(s) { c.oracle_fail("length", &format!("Length != |content| after {} on a stream whose Length was {}", op, fname), json!({"op": op, "length_before": fname, "after": stream_tok(s).chars().take(200).collect::<String>(), "content_len": s.content.len()})); }
+            c.count(&format!("length.forms.{}", op));
+        };
+        // set_content / set_plain_content
+        let tok = stream_tok(&flate_stream);
+        let mut a = flate_stream.clone(); a.set_content(vec![1, 2, 3]);
+        c.corr(format!("setcontent {} 010203", tok), format!("ok {}", stream_tok(&a)));
+        fail(c, "set_content", &a);
+        let mut b = flate_stream.clone(); b.set_plain_content(vec![4, 5]);
+        c.corr(format!("setplain {} 0405", tok), format!("ok {}", stream_tok(&b)));
+        fail(c, "set_plain_content", &b);
+        // compress (changes the stream: 200 compressible bytes), decompress
+        compress_case(c, &plain_stream, "length.forms", false);
+        let mut cs = plain_stream.clone(); let _ = cs.compress();
+        if cs.dict.has(b"Filter") { fail(c, "compress", &cs); } else { c.oracle_fail("witness-setup", "length.forms: the stream was not compressed", json!({})); }
+        let _ = decode_and_corr(c, &flate_stream);
+        let mut ds = flate_stream.clone();
+        if ds.decompress().is_ok() { fail(c, "decompress", &ds); } else { c.oracle_fail("witness-setup", "length.forms: the stream was not decompressed", json!({})); }
+        // Document::compress / Document::decompress with the Length target present as object 7 (an integer) and 8 (a stream)
+        let mut doc = Document::with_version("1.5");
+        doc.objects.insert((5, 0), Object::Stream(plain_stream.clone()));
+        doc.objects.insert((6, 0), Object::Stream(flate_stream.clone()));
+        doc.objects.insert((7, 0), Object::Integer(200));
+        doc.objects.insert((8, 0), Object::Stream(Stream::new(Dictionary::new(), vec![9, 9])));
+        let mut dc = doc.clone(); dc.compress();
+        if let Some(Object::Stream(s)) = dc.objects.get(&(5, 0)) { if s.dict.has(b"Filter") { fail(c, "Document::compress", s); } }
+        if dc.objects.get(&(7, 0)) != doc.objects.get(&(7, 0)) { c.oracle_fail("doc-compress", "Document::compress modified the integer object a Length points at", json!({})); }
+        let mut dd = doc.clone(); dd.decompress();
+        if let Some(Object::Stream(s)) = dd.objects.get(&(6, 0)) { if !s.dict.has(b"Filter") { fail(c, "Document::decompress", s); } }
+        if dd.objects.get(&(7, 0)) != doc.objects.get(&(7, 0)) { c.oracle_fail("doc-decompress", "Document::decompress modified the integer object a Length points at", json!({})); }
+    }
+}
 
 fn run_witnesses(c: &mut Ctx) {
     // tie of Lean `decompress_empty_filter_witness`: `Filter []` — get_plain_content returns the content,
@@ -1087,9 +1165,11 @@ pub fn run(c: &mut Ctx) {
 EarlyChange 0/1) x chains of length 1-3 over {Flate, LZW, ASCII85} x {no parms, dictionary, array} x Predictor {absent,1,10..15} x Columns 1-12 x Colors 1-4 x \
 BitsPerComponent 8/16; all 1-byte and (thorough) all 2-byte partial final ASCII85 groups, sampled 3-byte ones; rows through decode_row (encoded and arbitrary \
 filtered bytes, bpp 1-8); frames through decode_frame; malformed ASCII85 / frames / dictionaries; compress incl. a length sweep across the +19 margin; \
-set_content / set_plain_content; Document::compress / decompress. Non-trivial = non-empty plaintext (chains), row longer than bpp (rows), >=2 rows (frames), \
+set_content / set_plain_content; Document::compress / decompress; before every content-changing operation the Length entry is right / a wrong integer / \
+an indirect reference (to an integer object, another object, dangling) / another object / absent, and afterwards it must be Integer(content.len()). Non-trivial = non-empty plaintext (chains), row longer than bpp (rows), >=2 rows (frames), \
 any malformed / edit case; distinct by request text.".into();
     run_witnesses(c);
+    run_length_forms(c);
     run_big(c);
     run_a85(c);
     run_png(c);
